@@ -7,7 +7,7 @@ func checkC11(rep *Report, rng *Rng, tier string) {
 	if tier == "thorough" {
 		n = 3000
 	}
-	rep.Rule = "seeded source histories (1-4 collections incl. empty ones, 4 comparators, flushed / unflushed / evicted / freshly re-opened, also snapshots as sources) followed by CopyTo with flushEvery in {-1,0,1,2,3,n-1,n,n+1,10n}: the returned store must have exactly the source's collections, keys, values and priorities; for flushEvery>0 the destination file re-opens to that state, the Coq decoder reconstructs it, and every live item record occurs exactly once in the destination file; the source's contents and file are unchanged (no write/truncate on the source file during CopyTo); non-trivial = at least 8 ops and one CopyTo"
+	rep.Rule = "seeded source histories (1-4 collections incl. empty ones, 4 comparators, flushed / unflushed / evicted / freshly re-opened, also snapshots as sources) followed by CopyTo with flushEvery in {-1,0,1,2,3,n-1,n,n+1,10n}: the returned store must have exactly the source's collections, keys, values and priorities; for flushEvery>0 the destination file re-opens to that state, the Coq decoder reconstructs it, and every live item record occurs exactly once in the destination file; the source's contents and file are unchanged (no write/truncate on the source file during CopyTo); a third of the copies run with ONE transient fault on a destination file call (any position, writes torn or not): CopyTo must return an error, never a silently incomplete copy; non-trivial = at least 8 ops and one CopyTo"
 	HistoryLoop(rep, rng, n, func(r *Rng, i int) (RunCfg, []Op, string) {
 		g := GenCfg{FileBacked: r.Chance(3, 4), NColls: 1 + r.Intn(4), NOps: 20 + r.Intn(60), CmpMode: r.Intn(2), Structural: true, PrioMode: r.Intn(4), NKeys: 4 + r.Intn(25), BigVals: r.Chance(1, 6)}
 		ops := GenHistory(r, g)
@@ -44,7 +44,12 @@ func checkC11(rep *Report, rng *Rng, tier string) {
 			if f < -1 {
 				f = -1
 			}
-			ops = append(ops, Op{K: "copyto", H: src, N: f})
+			cp := Op{K: "copyto", H: src, N: f}
+			if r.Chance(1, 3) {
+				// one transient fault on a destination file call: an error, never a silently incomplete copy
+				cp.Prio, cp.WV = int32(1+r.Intn(4+4*nitems)), r.Chance(1, 2)
+			}
+			ops = append(ops, cp)
 			if r.Chance(1, 2) && len(ops) > 3 {
 				// keep mutating the source between copies
 				o := ops[1+r.Intn(len(ops)-2)]
